@@ -937,6 +937,8 @@ static void run_op(CalWorld &w, const Op &op, const Plan &plan)
 	    fired = g_sim.fired_read_eio || g_sim.fired_read_eof || g_sim.fired_open;
 	    msg.clear();
 	    if (!g_sim.callbacks.empty()) msg = g_sim.callbacks.back().msg);
+	c11_discipline(c, "vnacal_load", "vnacal_load", vcp == nullptr, e, w.cb, C11_MUST);	// (callbacks of the last attempt)
+	if (c.violated) return;
 	c.log(" vnacal_load(%s) -> %s errno=%s", name.c_str(), vcp ? "ok" : "NULL", vcp ? "-" : errno_name(e));
 	auto fit = w.files.find(name);
 	bool good = fit != w.files.end() && fit->second.good && !fired;
@@ -1030,6 +1032,7 @@ static void cal_run(Ctx &c, const Plan &plan)
 {
     CalWorld w(c);
     w.cb = plan.cfg.geti("callback", 1) != 0;
+    c.cb_installed = w.cb;
     w.solo_twin = plan.cfg.geti("solo_twin", 1) != 0;
     { LibCall lc(c); w.vcp = vnacal_create(w.cb ? sim_error_fn : nullptr, nullptr); lc.done(); }
     if (!w.vcp) { c.violate("model", "create:rc", "vnacal_create failed"); return; }
